@@ -63,7 +63,7 @@
 //!                plus a letter, another tag's name
 //!  binding-inner append ` +` / ` ? 1` / ` (` / ` [` / ` .` / ` &&` / an unterminated  any kind                    Warn
 //!                string (also cut by a line break, also as an operand) to a complete expression
-//!  binding-junk  insert ` x` / ` )` / ` #` / ` ]` / ` <astral>` before `}}`     UnexpectedExpressionChar.   Fatal
+//!  binding-junk  insert ` x` / ` )` / ` #` / ` ]` / ` <astral>` / U+3000 / U+A0 / U+2028 / U+85 before `}}` UnexpectedExpressionChar.   Fatal
 //!  wx-directive  add `wx:foo="x"` / `wx:show="{{a}}"` / `wx:For` to a tag       InvalidAttributePrefix      Warn
 //!  attr-prefix   add `foo:bar="x"` / `binds:tap="h"` / `a:b:c` / `Wx:if=..`     InvalidAttributePrefix      Warn
 //!  dup-attr      repeat an attribute of the tag verbatim at the end of the     DuplicatedAttribute         Warn
@@ -1057,9 +1057,11 @@ fn injections(t: &Tpl, mut f: impl FnMut(Defect, String) -> bool) {
         let later = s[b.close + 2..].contains("}}");
         emit!(if later { Defect::BindingOpen } else { Defect::BindingOpenLast }, splice(s, b.close..b.close + 2, ""));
         // binding-junk
-        const JUNK: [&str; 5] = [" x", " )", " #", " ]", " \u{1F600}"];
-        emit!(Defect::BindingJunk, splice(s, b.close..b.close, JUNK[bi % 5]));
-        emit!(Defect::BindingJunk, splice(s, b.close..b.close, JUNK[(bi + 2) % 5]));
+        // (the last four: characters Unicode calls white space but the template syntax does not)
+        const JUNK: [&str; 9] = [" x", " )", " #", " ]", " \u{1F600}", "\u{3000}", " \u{a0} ", "\u{2028}", " \u{85}"];
+        emit!(Defect::BindingJunk, splice(s, b.close..b.close, JUNK[bi % 9]));
+        emit!(Defect::BindingJunk, splice(s, b.close..b.close, JUNK[(bi + 2) % 9]));
+        emit!(Defect::BindingJunk, splice(s, b.close..b.close, JUNK[(bi + 5) % 9]));
         // binding-inner: the complete expression is continued by something that cannot end an expression -- a dangling
         // operator, an unfinished ternary, an unclosed bracket, a member access without a name, an unterminated string
         // (also one cut by a line break).  Whatever follows, the binding is broken: a diagnostic at Warn or above is due.
